@@ -103,6 +103,9 @@ def check_trace(prog, trace, mdl, part, extra=False, idnmsgs=None, src="hist", f
         kind = st[0]
         if op[0] == "r" or op[0] == "F" or op[0] == "C":
             continue
+        if op == "k":
+            confirmed = -1
+            continue
         if op[0] == "t":
             tld = int(op[1])
         elif op[0] == "a":
